@@ -113,6 +113,62 @@ def close_order(chk):
         chk.violation(R, inst, F.where(), 'the discard of unread application data does not precede the closure handshake', key='%s close-order' % R)
 
 
+def close_notify_remembered(chk):
+    """Closure sequence: while the engine waits for room to send its own close_notify, and afterwards until the peer's arrives, every
+    turn goes through the waiting word (co + alert processing) which returns the updated "close_notify received" flag.  That result
+    is the only record that the peer's close_notify was seen (the alert itself is consumed): it must be kept -- stored into a
+    local that is read again, or carried on the stack -- never dropped, or the engine waits for a second close_notify that never comes
+    and does not finish closed.  Def-use rule on the bytecode of the closure word (the word holding the fail(ERR_OK) site)."""
+    R = 'close-notify-flag-kept'
+    for key in ('hs_client', 'hs_server'):
+        P = t0.Program(key)
+        clos = []
+        for w, W in P.words.items():
+            l = list(W.ins.values())
+            for k, i in enumerate(l):
+                if i.kind == 'native' and i.name == 'fail' and k > 0:
+                    p = l[k - 1]
+                    v = p.arg if p.kind == 'const' else (P.const_word_value(p.arg) if p.kind == 'call' else None)
+                    if v == 0:
+                        clos.append(w)
+        if len(clos) != 1:
+            raise AnalysisBroken('%s: closure word (fail(ERR_OK)) not identified: %s' % (key, clos))
+        W = P.words[clos[0]]
+        l = list(W.ins.values())
+        wfc = set(i.arg for i in l if i.kind == 'call' and any(x.kind == 'native' and x.name == 'co' for x in P.words[i.arg].ins.values()))
+        sites = [k for k, i in enumerate(l) if i.kind == 'call' and i.arg in wfc]
+        if len(wfc) != 1 or len(sites) < 2:
+            raise AnalysisBroken('%s: waiting word of the closure sequence not identified (%s, %d sites)' % (key, sorted(wfc), len(sites)))
+        for k in sites:
+            nx = l[k + 1] if k + 1 < len(l) else None
+            inst = '%s W%d@%d: the flag returned by the waiting word W%d is kept' % (key, W.id, l[k].pc, next(iter(wfc)))
+            bad = None
+            if nx is None:
+                bad = 'nothing follows the call'
+            elif nx.kind == 'native' and nx.name in ('drop', 'nip', '2drop'):
+                bad = 'the result is discarded (%s)' % nx.name
+            elif nx.kind == 'putlocal':
+                # the local must be read again on some path from here
+                seen, st, read = set(), [nx.next], False
+                while st and not read:
+                    q = st.pop()
+                    if q in seen or q not in W.ins:
+                        continue
+                    seen.add(q)
+                    j = W.ins[q]
+                    if j.kind == 'getlocal' and j.arg == nx.arg:
+                        read = True
+                    elif j.kind == 'putlocal' and j.arg == nx.arg:
+                        continue
+                    st.extend(W.succs(j))
+                if not read:
+                    bad = 'the result is stored into local %d which is never read again' % nx.arg
+            if bad:
+                chk.violation(R, inst, P.src, bad + ": a close_notify received during this wait is forgotten", key='%s %s %d' % (R, key, sites.index(k)))
+            else:
+                chk.ok(R, inst, P.src)
+
+
 def reneg_binding(chk):
     """RFC 5746 3.4-3.7: a renegotiation is bound to the previous handshake by comparing the renegotiation_info extension with the
     saved verify_data: the client compares client_verify_data || server_verify_data (2 x 12 bytes), the server client_verify_data
@@ -379,6 +435,7 @@ def run(tier):
     reneg_binding(chk)
     reneg_extension_required(chk)
     alert_levels(chk)
+    close_notify_remembered(chk)
     fail_call_sites(chk)
     io_rules(chk)
     chk.floor('rule instances', len(chk.obls), 100)
